@@ -42,7 +42,7 @@ Open Scope Z_scope.
    the statement list for the passes (LingoNestFacts.detect_nest). *)
 Theorem C03_exit_free_nests_rebuilt_unbounded :
   forall en props p d off fuel r m,
-  wf_p en p -> agrees_p en props m -> m_stack m = [] -> f_stmts (m_fn m) = [] ->
+  wf_p wcond_ok en p -> agrees_p en props m -> m_stack m = [] -> f_stmts (m_fn m) = [] ->
   code_at d off (compile_p p ++ [b 1]) ->
   let pexit := off + zlen (compile_p p) in
   let exit_st := Stmt pexit (Call "exit" pexit None true false false) in
@@ -54,7 +54,7 @@ Proof. exact nest_handler. Qed.
 Print Assumptions C03_exit_free_nests_rebuilt_unbounded.
 
 (* the passes alone, on any well-positioned flat list (the form the theorem above shows the machine leaves) *)
-Theorem C03_passes_rebuild_any_nest : forall l lo hi, wp lo hi l -> detect (flats l) = Ok (fins l).
+Theorem C03_passes_rebuild_any_nest : forall l lo hi, wpw lo hi l -> detect (flats l) = Ok (fins l).
 Proof. exact detect_nest. Qed.
 Print Assumptions C03_passes_rebuild_any_nest.
 
@@ -69,7 +69,7 @@ Definition nest3 : prog :=
    (PIfE (c_lt 14) (PStmt (put_s 15) PNil) (PIf (c_lt 16) (PStmt (put_s 17) PNil) PNil)
    (PWhile (c_lt 18) (PStmt (put_s 19) (PIf (c_lt 20) (PWhile (c_lt 21) (PStmt (put_s 22) PNil) (PStmt (put_s 23) PNil)) PNil))
    (PIf (c_lt 24) (PWhile (c_lt 25) (PIfE (c_lt 26) (PStmt (put_s 27) PNil) (PStmt (put_s 28) PNil) PNil) PNil) (PStmt (put_s 10) PNil))))).
-Example C03_nest3_wf : wf_p flow_env nest3.
+Example C03_nest3_wf : wf_p wcond_ok flow_env nest3.
 Proof. cbn. repeat split; try lia; try discriminate; intros; reflexivity. Qed.
 Example C03_nest3_run :
   decompile_handler (compile_p nest3 ++ [b 1])
